@@ -36,7 +36,7 @@ ASSUMPTIONS = [
 SHARDS = {"quick": 8, "thorough": 16}
 MIN_REACH = {
     "figures_judged": {"quick": 300, "thorough": 5000},
-    "heat_maps_whose_x_or_y_dimension_has_one_entry": {"quick": 2, "thorough": 40},
+    "heat_maps_whose_x_or_y_dimension_has_one_entry": {"quick": 2, "thorough": 30},
     "figures_whose_dimensions_are_named_like_selection_keywords": {"quick": 20, "thorough": 350},
     "series_compared": {"quick": 1200, "thorough": 20000},
     "colors_compared": {"quick": 500, "thorough": 8000},
